@@ -31,7 +31,14 @@ tw = tests()
 sh("git checkout -- psutil", wt)
 if needs_build: sh("/venv/bin/python setup.py build_ext -i", wt)
 rc2, o2 = sh(f"/venv/bin/python out/demo{n}.py", wt, 600); res["demo_passes_without_change"] = rc2 == 0
-two = tests()
+# baseline (no change): cached per commit of the scratch worktree -- the suite subset is deterministic apart from known flaky tests
+_head = sh("git rev-parse HEAD", wt)[1].strip()
+_cache = f"/tmp/wt/baseline_{_head[:10]}.json"
+if os.path.exists(_cache):
+    two = tuple(json.load(open(_cache)))
+else:
+    two = tests()
+    json.dump(list(two), open(_cache, "w"))
 res["tests_with_change"] = dict(failed=tw[0], summary=tw[1]); res["tests_without_change"] = dict(failed=two[0], summary=two[1])
 res["suite_subset_same_with_and_without"] = tw[0] == two[0]
 res["tests_files"] = TESTS
